@@ -667,6 +667,66 @@ static bool ownNumberGrammar(const std::string& tok) {
     return mantExp(b, false, 'e');
 }
 
+
+// a whole restart action: the conditions one after the other, read back through ActionX(RstAction) (tokens(),
+// dequote, Action::Parser) and evaluated
+static std::string realRstEval(const std::vector<RstSpec>& cs, const Action::Context& ctx) {
+    for (auto& c : cs) if (c.rhsConst && !fmtDefined(c.rhsVal)) return "none";
+    try {
+        std::vector<RestartIO::RstAction::Condition> conds;
+        for (auto& c : cs) conds.push_back(rstCondition(c));
+        RestartIO::RstAction ra("ACT", 10, 0, 0.0, 0, 0, conds);
+        Action::ActionX ax(ra);
+        try { return showResult(ax.eval(ctx)); } catch (const std::exception&) { return "err"; }
+    } catch (const std::exception&) { return "noparse"; }
+}
+
+static std::string rstEvalProto(const std::vector<RstSpec>& cs) {
+    auto wg = [](const std::string& q, const std::string& w) { return (q[0] == 'W' || q[0] == 'G') ? (w.empty() ? std::string("e") : vh::hex(w)) : std::string("-"); };
+    std::string o;
+    for (auto& c : cs) {
+        int code = 0; try { code = static_cast<int>(Action::Parser::get_func(c.lhs)); } catch (...) {}
+        o += " C;" + vh::hex(c.lhs) + ";" + std::to_string(code) + ";" + wg(c.lhs, c.lhsWg) + ";" + std::to_string(c.cmp) + ";" +
+             (c.rhsConst ? "V:" + vh::hexF64(c.rhsVal) : "N:" + vh::hex(c.rhsQ) + ":" + wg(c.rhsQ, c.rhsWg)) + ";" +
+             (c.lp ? "1" : "0") + ";" + (c.rp ? "1" : "0") + ";" + std::to_string(c.logic);
+    }
+    return o;
+}
+
+// a condition list over the quantities of the world: 1..4 comparisons joined by AND / OR, at most one parenthesised group
+// (all the per-comparison storage can express); `exact` = only constants that survive format_double
+static std::vector<RstSpec> genRstList(vh::Rng& rng, bool exact) {
+    std::vector<RstSpec> cs;
+    const int n = rng.range(1, 4);
+    for (int i = 0; i < n; ++i) {
+        RstSpec s;
+        s.lhs = rng.pick(Strs{ "FOPR", "FWCT", "FUX", "WOPR", "WWCT", "WUX", "GOPR", "GUX" });
+        if (s.lhs[0] == 'W') s.lhsWg = rng.pick(Strs{ "P1", "P2", "P3", "'P1'", "P*", "*", "OP_1", "?P*", "*L1", "'*L2'", "\\*", "P[12]", "I1" });
+        if (s.lhs[0] == 'G') s.lhsWg = rng.pick(Strs{ "G1", "G2", "'G1'" });
+        s.cmp = rng.range(1, 6);
+        if (rng.coin(3, 4)) {
+            s.rhsConst = true;
+            switch (rng.range(0, exact ? 2 : 4)) {
+            case 0: s.rhsVal = rng.range(-1, 3); break;
+            case 1: s.rhsVal = rng.range(0, 8) * 0.25; break;
+            case 2: s.rhsVal = rng.range(-16, 16) * 0.125; break;
+            case 3: s.rhsVal = rng.range(0, 2000) * 1e-3 + (rng.coin() ? 4e-7 : 0.0); break;
+            default: s.rhsVal = restartConstant(rng); break;
+            }
+        } else {
+            s.rhsQ = rng.pick(Strs{ "FOPR", "FWCT", "GOPR", "WOPR" });
+            if (s.rhsQ[0] == 'W') s.rhsWg = rng.pick(Strs{ "P1", "P2", "'P1'" });
+            if (s.rhsQ[0] == 'G') s.rhsWg = rng.pick(Strs{ "G1", "G2" });
+        }
+        s.logic = (i + 1 < n) ? rng.range(1, 2) : 0;
+        cs.push_back(s);
+    }
+    if (n >= 2 && rng.coin(1, 2)) { int a = rng.range(0, n - 2), b = rng.range(a + 1, n - 1); cs[a].lp = true; cs[b].rp = true; }
+    if (!exact && rng.coin(1, 12)) { RstSpec& x = cs[rng.below(cs.size())]; switch (rng.range(0, 3)) { case 0: x.lp = !x.lp; break; case 1: x.rp = !x.rp; break; case 2: x.logic = rng.range(0, 2); break; default: if (x.lhs[0] == 'W') x.lhsWg = "'P1"; break; } }
+    for (auto& c : cs) if (c.lp && c.rp) c.rp = false;      // IACN has ONE parenthesis slot per condition (Open | Close | None)
+    return cs;
+}
+
 int main(int argc, char** argv) {
     if (argc < 5) { std::cerr << "usage: action corr|prop <seed> <tier> <outdir>\n"; return 2; }
     const std::string mode = argv[1];
@@ -812,6 +872,17 @@ int main(int argc, char** argv) {
             const std::string a = realRstTokens(sp);
             sink.emit(rstProto(sp), a);
             sink.count("rsttok"); sink.count(a == "none" ? "rsttok.undefined" : sp.rhsConst ? "rsttok.constant" : "rsttok.quantity");
+        }
+        // a whole condition through the restart reader: ActionX(RstAction) = tokens() + dequote + Parser, then eval
+        for (int wi = 0; wi < (thorough ? 150 : 50); ++wi) {
+            Env env(rng);
+            for (int k = 0; k < 40; ++k) {
+                const auto cs = genRstList(rng, false);
+                const std::string a = realRstEval(cs, *env.ctx);
+                sink.emit("action.rsteval " + ctxProto(env.w) + " |" + rstEvalProto(cs), a);
+                sink.count("rsteval"); sink.count("rsteval.answer." + a.substr(0, a.find(' ')));
+                if (a.size() > 5 && a.substr(0, 4) == "ok 1" && a.substr(5) != "-") sink.count("rsteval.true_with_wells");
+            }
         }
         // several actions, redefinitions, report steps
         for (int i = 0; i < (thorough ? 6000 : 1500); ++i) {
@@ -1029,6 +1100,44 @@ int main(int argc, char** argv) {
                     if (r0 != r1) log.fail("restart-eval", joinStrs(tk) + "  ->  " + joinStrs(back) + " before=" + r0 + " after=" + r1);
                     else { log.ok(); ++stats[sp.rhsConst ? "restart_eval_constant" : "restart_eval_quantity"]; if (r0 == "err") ++stats["restart_eval_err"]; }
                 } catch (const std::exception& e) { log.fail("restart-exception", joinStrs(tk) + " : " + e.what()); }
+            }
+        }
+        // the whole condition: the token list evaluated directly and the same condition stored per comparison and read
+        // back through ActionX(RstAction) agree (constants restricted to those format_double keeps exactly)
+        for (int wi = 0; wi < (thorough ? 200 : 60); ++wi) {
+            Env env(rng);
+            for (int k = 0; k < 40; ++k) {
+                const auto cs0 = genRstList(rng, true);
+                Strs all; std::vector<RstSpec> stored; bool okk = true; std::string why;
+                try {
+                    for (const auto& c : cs0) {
+                        Strs tk;
+                        if (c.lp) tk.push_back("(");
+                        tk.push_back(c.lhs); if (c.lhs[0] == 'W' || c.lhs[0] == 'G') tk.push_back(c.lhsWg);
+                        tk.push_back(Action::comparator_as_string(Action::comparator_from_int(c.cmp)));
+                        if (c.rhsConst) { char buf[64]; std::snprintf(buf, sizeof buf, rng.coin() ? "%g" : "%.3f", c.rhsVal); tk.push_back(buf); }
+                        else { tk.push_back(c.rhsQ); if (c.rhsQ[0] == 'W' || c.rhsQ[0] == 'G') tk.push_back(c.rhsWg); }
+                        if (c.rp) tk.push_back(")");
+                        if (c.logic == 1) tk.push_back("AND"); if (c.logic == 2) tk.push_back("OR");
+                        // the writer's view of this line of the ACTIONX keyword
+                        Action::Condition cond(tk, KeywordLocation{});
+                        RstSpec sp;
+                        sp.lhs = cond.lhs.quantity; if (!cond.lhs.args.empty()) sp.lhsWg = cond.lhs.args[0];
+                        sp.cmp = cond.comparator_as_int();
+                        namespace QT = RestartIO::Helpers::VectorItems::IACN::Value;
+                        if (cond.rhs.int_type() == QT::Const) { sp.rhsConst = true; sp.rhsVal = std::stod(cond.rhs.quantity); }
+                        else { sp.rhsQ = cond.rhs.quantity; if (!cond.rhs.args.empty()) sp.rhsWg = cond.rhs.args[0]; }
+                        sp.lp = cond.open_paren(); sp.rp = cond.close_paren(); sp.logic = cond.logic_as_int();
+                        stored.push_back(sp);
+                        for (auto& t : tk) all.push_back(stripQ(t));          // ActionX dequotes deck tokens too
+                    }
+                } catch (const std::exception& e) { okk = false; why = e.what(); }
+                if (!okk) { log.fail("restart-exception", joinStrs(all) + " : " + why); continue; }
+                std::string r0;
+                try { Action::AST ast(all); try { r0 = showResult(ast.eval(*env.ctx)); } catch (const std::exception&) { r0 = "err"; } } catch (const std::exception&) { r0 = "noparse"; }
+                const std::string r1 = realRstEval(stored, *env.ctx);
+                if (r0 != r1) log.fail("restart-eval-list", joinStrs(all) + " before=" + r0 + " after=" + r1);
+                else { log.ok(); ++stats["restart_eval_list"]; ++stats["restart_eval_list." + r0.substr(0, 4)]; if (cs0.size() > 1) ++stats["restart_eval_list.multi"]; }
             }
         }
         // run limits on the real ready/add_run alone
